@@ -41,6 +41,9 @@ type gOp struct {
 	// Pad (REALPATH / READLINK only): the path sent is P with its last component lengthened by 'p's to a total of
 	// Pad bytes, so that programs with paths of 100+ KiB (whose NAME replies carry the path twice) stay small as JSON.
 	Pad uint32 `json:"pad,omitempty"`
+	// Abs (path requests on a server with a working / start directory): the path is sent in its absolute form
+	// nonetheless (without it every path of the pipeline is sent relative to that directory).
+	Abs bool `json:"abs,omitempty"`
 }
 
 // pth is the path a path request names: abs(P), lengthened to Pad bytes where Pad asks for more.
@@ -68,9 +71,48 @@ type gProg struct {
 	ReadOnly bool `json:"read_only,omitempty"`
 	// WorkDir: os-backed server started with WithServerWorkingDirectory(scratch root), request server with
 	// WithStartDirectory("/wd"); the handles of the program are then opened by names relative to that directory.
-	WorkDir bool      `json:"work_dir,omitempty"`
+	WorkDir bool `json:"work_dir,omitempty"`
+	// Ifaces (request server): which of the optional handler interfaces the handlers do NOT implement.
+	Ifaces  gIfaces   `json:"ifaces,omitzero"`
 	Handles []gHandle `json:"handles"`
 	Ops     []gOp     `json:"ops"`
+}
+
+// gIfaces names the optional interfaces of sftp.Handlers that the handlers of a run lack. The zero value is a
+// handler set that implements every one of them (RealPath in its current form, with an error result).
+type gIfaces struct {
+	NoStatVFS     bool `json:"no_statvfs,omitempty"`      // FileCmd is not a StatVFSFileCmder: statvfs@openssh.com is answered OP_UNSUPPORTED
+	NoPosixRename bool `json:"no_posix_rename,omitempty"` // FileCmd is not a PosixRenameFileCmder: posix-rename is served by Filecmd as Rename
+	NoLstat       bool `json:"no_lstat,omitempty"`        // FileList is not a LstatFileLister: LSTAT is served by Filelist as Stat
+	NoOpenFile    bool `json:"no_open_file,omitempty"`    // FilePut is not an OpenFileWriter: a read-write OPEN goes through Filewrite (handle serves writes only)
+	NoReadlink    bool `json:"no_readlink,omitempty"`     // FileList is not a ReadlinkFileLister: READLINK is served by Filelist (method Readlink)
+	// RealPath: "" = RealPathFileLister (string, error); "legacy" = the old signature without error result;
+	// "none" = neither: REALPATH is answered by the server itself, without any handler call.
+	RealPath string `json:"real_path,omitempty"`
+}
+
+func (i gIfaces) zero() bool { return i == gIfaces{} }
+
+// tokens lists what is lacking (or different), one word each.
+func (i gIfaces) tokens() []string {
+	var t []string
+	for _, x := range []struct {
+		on bool
+		s  string
+	}{{i.NoStatVFS, "no-StatVFS"}, {i.NoPosixRename, "no-PosixRename"}, {i.NoLstat, "no-Lstat"}, {i.NoOpenFile, "no-OpenFile"}, {i.NoReadlink, "no-Readlink"},
+		{i.RealPath == "none", "no-RealPath"}, {i.RealPath == "legacy", "legacy-RealPath"}} {
+		if x.on {
+			t = append(t, x.s)
+		}
+	}
+	return t
+}
+
+func (i gIfaces) text() string {
+	if t := i.tokens(); len(t) > 0 {
+		return strings.Join(t, "+")
+	}
+	return "all-interfaces"
 }
 
 func (p gProg) text() string {
@@ -81,6 +123,9 @@ func (p gProg) text() string {
 	}
 	if p.WorkDir {
 		b.WriteString(" workdir")
+	}
+	if !p.Ifaces.zero() {
+		b.WriteString(" handlers=" + p.Ifaces.text())
 	}
 	b.WriteString(" |")
 	for _, h := range p.Handles {
@@ -129,6 +174,9 @@ func (p gProg) shape() string {
 		}
 		if o.Pad > 0 {
 			b.WriteString(":long")
+		}
+		if o.Abs {
+			b.WriteString(":abs")
 		}
 	}
 	return b.String()
@@ -233,6 +281,7 @@ var gFutureAtime = time.Unix((time.Now().Unix()/86400+3)*86400, 0)
 
 // ---- wire frames ----
 
+// frame is the request as sent. abs gives the form in which its path names go over the wire (gCase.sent).
 func (o gOp) frame(abs func(string) string, h string) []byte {
 	attrs := wire.St{Flags: o.AF, Perm: 0o644, Size: 0}
 	switch o.K {
@@ -258,6 +307,10 @@ func (o gOp) frame(abs func(string) string, h string) []byte {
 		return wire.Req(wire.Opendir, o.ID, wire.B{}.Str(abs(o.P)))
 	case "open":
 		return wire.Req(wire.Open, o.ID, wire.B{}.Str(abs(o.P)).U32(wire.FRead).U32(0))
+	case "openrw":
+		return wire.Req(wire.Open, o.ID, wire.B{}.Str(abs(o.P)).U32(wire.FRead|wire.FWrite).U32(0))
+	case "openw":
+		return wire.Req(wire.Open, o.ID, wire.B{}.Str(abs(o.P)).U32(wire.FWrite|wire.FCreat|wire.FTrunc).U32(0))
 	case "remove":
 		return wire.Req(wire.Remove, o.ID, wire.B{}.Str(abs(o.P)))
 	case "rmdir":
@@ -299,7 +352,7 @@ func gSimKind(k string) byte {
 // gSuccessType is the reply type a request gets when it succeeds.
 func gSuccessType(k string) byte {
 	switch k {
-	case "open", "opendir":
+	case "open", "openrw", "openw", "opendir":
 		return wire.Handle
 	case "read":
 		return wire.Data
@@ -344,9 +397,42 @@ type gRoute struct {
 	// any handler call; this is the key (prefix) of the call that dispatching on the handle's method instead of the
 	// packet type would make (the former defect F13). Such a call is never held, so that the reply can be judged.
 	Forbidden string
+	// Denied: os-backed server started with ReadOnly(), request of a modifying kind: the server answers
+	// PERMISSION_DENIED itself; neither the file system nor an opened file is touched.
+	Denied bool
+	// NoCall: request server whose handlers lack the optional interface this request would be passed to: the
+	// server answers by itself, without any handler call. WantCode (when not 0) is the status code a refusal
+	// (Denied, or NoCall for an extension the handlers do not serve) must carry.
+	NoCall   string
+	WantCode uint32
+	// Fallback: the optional interface is lacking and the request is served through the general method named here.
+	Fallback string
 }
 
-// gRoutes walks the program in stream order. abs maps relative names to the paths the server sees.
+// gDeniedKinds are the request kinds a server started with ReadOnly() refuses without looking at them any further.
+var gDeniedKinds = map[string]bool{"write": true, "fsetstat": true, "setstat": true, "remove": true, "mkdir": true, "rmdir": true, "rename": true,
+	"symlink": true, "posixrename": true, "hardlink": true, "openrw": true, "openw": true}
+
+// gCleanWithBase is the path a request server's handler sees for a path sent as p: cleaned, and resolved against
+// the start directory where it is relative.
+func gCleanWithBase(base, p string) string {
+	p = path.Clean(p)
+	if !path.IsAbs(p) {
+		return path.Join(base, p)
+	}
+	return p
+}
+
+// effKind is the kind of handle the server really hands out for h: a request server whose FilePut is not an
+// OpenFileWriter serves a read-write OPEN through Filewrite, and the handle then takes writes only.
+func (p gProg) effKind(h *gHandle) string {
+	if p.Server == "rs" && p.Ifaces.NoOpenFile && h.Kind == "rw" {
+		return "put"
+	}
+	return h.Kind
+}
+
+// gRoutes walks the program in stream order. abs maps relative names to the absolute paths of the objects.
 func gRoutes(p gProg, abs func(string) string) []gRoute {
 	state := map[string]string{} // open | closing | stale
 	for _, h := range p.Handles {
@@ -362,18 +448,26 @@ func gRoutes(p gProg, abs func(string) string) []gRoute {
 		count[base]++
 		return k
 	}
+	rs := p.Server == "rs"
+	ro := !rs && p.ReadOnly
+	base := "/"
+	if p.WorkDir {
+		base = gRSStartDir
+	}
 	var out []gRoute
 	for _, o := range p.Ops {
 		r := gRoute{Sim: simReq{Kind: gSimKind(o.K), ID: o.ID}}
 		var hd *gHandle
 		live := false
+		kind := ""
 		if o.H != "" {
 			hd = p.handle(o.H)
 			switch {
 			case hd == nil:
 				r.HKind = "bogus"
 			case state[o.H] == "open":
-				r.HKind, live = hd.Kind, true
+				kind = p.effKind(hd)
+				r.HKind, live = kind, true
 			case state[o.H] == "stale":
 				r.HKind = "stale"
 			default:
@@ -384,36 +478,43 @@ func gRoutes(p gProg, abs func(string) string) []gRoute {
 		if hd != nil {
 			obj = abs(hd.Path)
 		}
-		rs := p.Server == "rs"
-		switch o.K {
-		case "read", "write":
+		// sent: the form in which the paths of this request go over the wire
+		sent := abs
+		if p.WorkDir && !o.Abs {
+			sent = func(s string) string { return s }
+		}
+		switch {
+		case ro && gDeniedKinds[o.K]:
+			r.Denied = true
+			r.WantCode = wire.PermissionDenied
+		case o.K == "read" || o.K == "write":
 			if !live {
 				break
 			}
-			want := map[string]bool{"read": hd.Kind == "get" || hd.Kind == "rw", "write": hd.Kind == "put" || hd.Kind == "rw"}[o.K]
+			want := map[string]bool{"read": kind == "get" || kind == "rw", "write": kind == "put" || kind == "rw"}[o.K]
 			r.Mismatch = !want
 			switch {
-			case rs && r.Mismatch && hd.Kind == "dir":
+			case rs && r.Mismatch && kind == "dir":
 				r.Forbidden = "ls:" + obj + "#"
 			case rs && r.Mismatch:
 				r.Forbidden = fmt.Sprintf("rw:%s:%d", obj, o.Off)
 			default: // the os-backed server passes the call to the file; the kernel refuses what the open mode forbids
 				r.Sim.Gate = fmt.Sprintf("rw:%s:%d", obj, o.Off)
 			}
-		case "readdir":
+		case o.K == "readdir":
 			if !live {
 				break
 			}
-			r.Mismatch = hd.Kind != "dir"
+			r.Mismatch = kind != "dir"
 			switch {
 			case !rs:
 				r.Sim.Gate = num("readdir:" + obj)
-			case hd.Kind == "dir":
+			case kind == "dir":
 				r.Sim.Gate = num("ls:" + obj)
-			case hd.Kind == "get" || hd.Kind == "put":
+			case kind == "get" || kind == "put":
 				r.Forbidden = fmt.Sprintf("rw:%s:0", obj)
 			}
-		case "fstat":
+		case o.K == "fstat":
 			if live {
 				if rs {
 					r.Sim.Gate = num("list:Stat:" + obj)
@@ -421,7 +522,7 @@ func gRoutes(p gProg, abs func(string) string) []gRoute {
 					r.Sim.Gate = num("stat:" + obj)
 				}
 			}
-		case "fsetstat":
+		case o.K == "fsetstat":
 			if live {
 				if rs {
 					r.Sim.Gate = num("cmd:Setstat:" + obj)
@@ -429,33 +530,72 @@ func gRoutes(p gProg, abs func(string) string) []gRoute {
 					r.Sim.Gate = num("chmod:" + obj)
 				}
 			}
-		case "close":
+		case o.K == "close":
 			if live {
 				r.CloseKey = "close:" + obj
 				state[o.H] = "closing"
 			}
-		case "fsync", "extunknown":
+		case o.K == "fsync" || o.K == "extunknown":
 		default: // path requests
 			if !rs {
 				break
 			}
-			pp := abs(o.P)
+			ifc := p.Ifaces
+			pp := gCleanWithBase(base, sent(o.P)) // what the handler finds in Request.Filepath
 			switch o.K {
 			case "stat":
 				r.Sim.Gate = num("list:Stat:" + pp)
 			case "lstat":
-				r.Sim.Gate = num("lstat:" + pp)
+				if ifc.NoLstat {
+					r.Fallback = "Filelist(Stat)"
+					r.Sim.Gate = num("list:Stat:" + pp)
+				} else {
+					r.Sim.Gate = num("lstat:" + pp)
+				}
 			case "opendir":
 				r.Sim.Gate = num("list:List:" + pp)
 			case "open":
 				r.Sim.Gate = num("open:Get:" + pp)
-			case "realpath":
-				r.Sim.Gate = num("realpath:" + gKeyPath(o.pth(abs)))
+			case "openrw":
+				if ifc.NoOpenFile {
+					r.Fallback = "Filewrite(Put)"
+					r.Sim.Gate = num("open:Put:" + pp)
+				} else {
+					r.Sim.Gate = num("open:Open:" + pp)
+				}
+			case "openw":
+				r.Sim.Gate = num("open:Put:" + pp)
+			case "realpath": // the handler is given the path as sent
+				if ifc.RealPath == "none" {
+					r.NoCall = "RealPathFileLister" // the server cleans the path itself: NAME (or, as for every request, an error status)
+				} else {
+					r.Sim.Gate = num("realpath:" + gKeyPath(o.pth(sent)))
+				}
 			case "readlink":
-				r.Sim.Gate = num("readlink:" + gKeyPath(o.pth(abs)))
+				lp := gKeyPath(gCleanWithBase(base, o.pth(sent)))
+				if ifc.NoReadlink {
+					r.Fallback = "Filelist(Readlink)"
+					r.Sim.Gate = num("list:Readlink:" + lp)
+				} else {
+					r.Sim.Gate = num("readlink:" + lp)
+				}
+			case "statvfs":
+				if ifc.NoStatVFS {
+					r.NoCall, r.WantCode = "StatVFSFileCmder", wire.OpUnsupported
+				} else {
+					r.Sim.Gate = num("cmd:StatVFS:" + pp)
+				}
+			case "posixrename":
+				if ifc.NoPosixRename {
+					r.Fallback = "Filecmd(Rename)"
+					r.Sim.Gate = num("cmd:Rename:" + pp)
+				} else {
+					r.Sim.Gate = num("cmd:PosixRename:" + pp)
+				}
+			case "symlink": // Request.Filepath is the target exactly as sent
+				r.Sim.Gate = num("cmd:Symlink:" + sent(o.P))
 			default:
-				m := map[string]string{"remove": "Remove", "rmdir": "Rmdir", "setstat": "Setstat", "mkdir": "Mkdir", "rename": "Rename",
-					"symlink": "Symlink", "statvfs": "StatVFS", "posixrename": "PosixRename", "hardlink": "Link"}[o.K]
+				m := map[string]string{"remove": "Remove", "rmdir": "Rmdir", "setstat": "Setstat", "mkdir": "Mkdir", "rename": "Rename", "hardlink": "Link"}[o.K]
 				r.Sim.Gate = num("cmd:" + m + ":" + pp)
 			}
 		}
@@ -671,7 +811,7 @@ func gStatInfo(p string) os.FileInfo {
 }
 
 func (g *gRS) Filelist(r *sftp.Request) (sftp.ListerAt, error) {
-	c := g.hub.enter("Filelist"+r.Method, r.Filepath, "list:"+r.Method+":"+r.Filepath, true, 0, nil, true)
+	c := g.hub.enter("Filelist"+r.Method, gKeyPath(r.Filepath), "list:"+r.Method+":"+gKeyPath(r.Filepath), true, 0, nil, true)
 	err := gPathErr(r.Filepath)
 	if err == nil && r.Method == "List" && !gIsDirName(path.Base(r.Filepath)) {
 		err = os.ErrInvalid
@@ -722,8 +862,182 @@ func (g *gRS) Readlink(p string) (string, error) {
 	return "/s0", nil
 }
 
-func (g *gRS) handlers() sftp.Handlers {
-	return sftp.Handlers{FileGet: g, FilePut: g, FileCmd: g, FileList: g}
+// gLegacyRealPath is RealPath with the signature of old versions of the package (no error result).
+type gLegacyRealPath struct{ g *gRS }
+
+func (l gLegacyRealPath) RealPath(p string) string {
+	c := l.g.hub.enter("RealPath(legacy)", gKeyPath(p), "realpath:"+gKeyPath(p), true, 0, nil, true)
+	l.g.hub.leave(c, 0, nil, nil)
+	return path.Clean("/" + p)
+}
+
+// The method sets the handler values of a run are put together from (an embedded interface contributes exactly
+// its own methods, so a struct of some of them implements exactly the optional interfaces it is meant to).
+type (
+	gIFilewrite interface {
+		Filewrite(*sftp.Request) (io.WriterAt, error)
+	}
+	gIFilecmd interface {
+		Filecmd(*sftp.Request) error
+	}
+	gIPosixRename interface {
+		PosixRename(*sftp.Request) error
+	}
+	gIStatVFS interface {
+		StatVFS(*sftp.Request) (*sftp.StatVFS, error)
+	}
+	gIFilelist interface {
+		Filelist(*sftp.Request) (sftp.ListerAt, error)
+	}
+	gILstat interface {
+		Lstat(*sftp.Request) (sftp.ListerAt, error)
+	}
+	gIReadlink interface {
+		Readlink(string) (string, error)
+	}
+	gIRealPath interface {
+		RealPath(string) (string, error)
+	}
+)
+
+// handlers returns the handler set that lacks the optional interfaces named by i.
+func (g *gRS) handlers(i gIfaces) sftp.Handlers {
+	h := sftp.Handlers{FileGet: g, FilePut: g}
+	if i.NoOpenFile {
+		h.FilePut = struct{ gIFilewrite }{g}
+	}
+	switch {
+	case i.NoPosixRename && i.NoStatVFS:
+		h.FileCmd = struct{ gIFilecmd }{g}
+	case i.NoPosixRename:
+		h.FileCmd = struct {
+			gIFilecmd
+			gIStatVFS
+		}{g, g}
+	case i.NoStatVFS:
+		h.FileCmd = struct {
+			gIFilecmd
+			gIPosixRename
+		}{g, g}
+	default:
+		h.FileCmd = struct {
+			gIFilecmd
+			gIPosixRename
+			gIStatVFS
+		}{g, g, g}
+	}
+	lg := gLegacyRealPath{g}
+	k := 0
+	if !i.NoLstat {
+		k |= 1
+	}
+	if !i.NoReadlink {
+		k |= 2
+	}
+	switch i.RealPath {
+	case "none":
+		switch k {
+		case 0:
+			h.FileList = struct{ gIFilelist }{g}
+		case 1:
+			h.FileList = struct {
+				gIFilelist
+				gILstat
+			}{g, g}
+		case 2:
+			h.FileList = struct {
+				gIFilelist
+				gIReadlink
+			}{g, g}
+		default:
+			h.FileList = struct {
+				gIFilelist
+				gILstat
+				gIReadlink
+			}{g, g, g}
+		}
+	case "legacy":
+		switch k {
+		case 0:
+			h.FileList = struct {
+				gIFilelist
+				gLegacyRealPath
+			}{g, lg}
+		case 1:
+			h.FileList = struct {
+				gIFilelist
+				gILstat
+				gLegacyRealPath
+			}{g, g, lg}
+		case 2:
+			h.FileList = struct {
+				gIFilelist
+				gIReadlink
+				gLegacyRealPath
+			}{g, g, lg}
+		default:
+			h.FileList = struct {
+				gIFilelist
+				gILstat
+				gIReadlink
+				gLegacyRealPath
+			}{g, g, g, lg}
+		}
+	default:
+		switch k {
+		case 0:
+			h.FileList = struct {
+				gIFilelist
+				gIRealPath
+			}{g, g}
+		case 1:
+			h.FileList = struct {
+				gIFilelist
+				gILstat
+				gIRealPath
+			}{g, g, g}
+		case 2:
+			h.FileList = struct {
+				gIFilelist
+				gIReadlink
+				gIRealPath
+			}{g, g, g}
+		default:
+			h.FileList = struct {
+				gIFilelist
+				gILstat
+				gIReadlink
+				gIRealPath
+			}{g, g, g, g}
+		}
+	}
+	return h
+}
+
+// gIfacesOf reads back which optional interfaces a handler set implements (as the package's type assertions see
+// it); gExec compares it with what the case asked for, so that a slip in the table above cannot go unnoticed.
+func gIfacesOf(h sftp.Handlers) gIfaces {
+	var i gIfaces
+	_, ok := h.FileCmd.(sftp.StatVFSFileCmder)
+	i.NoStatVFS = !ok
+	_, ok = h.FileCmd.(sftp.PosixRenameFileCmder)
+	i.NoPosixRename = !ok
+	_, ok = h.FileList.(sftp.LstatFileLister)
+	i.NoLstat = !ok
+	_, ok = h.FilePut.(sftp.OpenFileWriter)
+	i.NoOpenFile = !ok
+	_, ok = h.FileList.(sftp.ReadlinkFileLister)
+	i.NoReadlink = !ok
+	if _, ok = h.FileList.(sftp.RealPathFileLister); !ok {
+		i.RealPath = "none"
+		if _, ok = h.FileList.(interface {
+			sftp.FileLister
+			RealPath(string) string
+		}); ok {
+			i.RealPath = "legacy"
+		}
+	}
+	return i
 }
 
 // ---- os-backed server: instrumented file ----
@@ -850,7 +1164,7 @@ func gBuildTree(root string, p gProg) error {
 			err = os.Mkdir(filepath.Join(root, o.P), 0o755)
 		case "remove", "rename", "posixrename", "hardlink", "setstat":
 			err = mkfile(o.P, []byte("victim "+o.P))
-		case "mkdir", "symlink", "realpath":
+		case "mkdir", "symlink", "realpath", "openw":
 		default:
 			err = obj(o.P)
 		}
